@@ -68,7 +68,7 @@ fn run<G: Group>(sc: &Scenario, st: &mut RunStats) -> Vec<Violation> {
     // an honest companion (same bits / ext, a single commitment) for deliveries in a batch context:
     // the altered triple is then neither alone nor, when m >= 2, the first or the smallest member
     let ccfg = Config { bits: sc.cfg.bits, m: 1, cap: 1, ext: sc.cfg.ext };
-    let cwit = WitnessSpec { values: vec![0], promises: vec![None], blind_seed: sc.fault_seed ^ 0x5EED, seed_nonce: None, zero_blind: vec![], same_as_prev: vec![], special_blind: None };
+    let cwit = WitnessSpec { values: vec![0], promises: vec![None], blind_seed: sc.fault_seed ^ 0x5EED, seed_nonce: None, zero_blind: vec![], same_as_prev: vec![], same_as_first: vec![], special_blind: None };
     let cctx = Context { label: 7, extra: None };
     let cbuilt = build::<G>(&ccfg, &cwit);
     let companion = match prove_mode::<G>(&cctx, &cbuilt.statement, &cbuilt.witness, &RngMode::Healthy(sc.rng_seed ^ 1)).0 {
